@@ -5,7 +5,7 @@ package main
 func init() { props["c04"] = runC04 }
 
 var hostileNames = []string{
-	"a", `"q"`, "a: b", "#h", `back\slash`, "日本語", "😀", "x\x01y", "x\x00y", "'s'", "{j}", "[l]", "null", "true", "~",
+	"a", `"q"`, "a: b", "<index>.html", "a&b", "x>y", "#h", `back\slash`, "日本語", "😀", "x\x01y", "x\x00y", "'s'", "{j}", "[l]", "null", "true", "~",
 	"1.5", "k=v", "a,b", "- x", "* y", " lead", "trail ", "a b", " ", "\ufeffbom", "yes", "0x1F", "2001-01-01", "|", ">", "&a", "*a", "!t", "%", "@", "`",
 	"a\tb", "\\n", "<<", "?", "a#b", "a #b", ": ", "-", "---", "...", "[", "]", "{", "}", ",",
 }
